@@ -647,6 +647,57 @@ impl Replayer {
                     Err(e) => classify(&e),
                 }
             }
+            "NewMemberPropose" => {
+                let from = s(&args, "from").to_string();
+                let (gi, tree) = {
+                    let g = self.w.parties[&from].group.as_ref().unwrap();
+                    let in_ext = self.w.opts.ratchet_tree_ext;
+                    (g.group_info_message(in_ext), if in_ext { None } else { Some(g.export_tree().into_owned()) })
+                };
+                let gi = match gi { Ok(m) => m, Err(e) => return (classify(&e), false) };
+                let probe_cs = self.w.cs(&p);
+                let ids_before: Vec<Vec<u8>> = match &self.w.parties[&p].kp.inner {
+                    KpBackend::Mem(m) => m.key_packages().into_iter().map(|x| x.0).collect(),
+                    _ => vec![],
+                };
+                match self.w.parties[&p].client.external_add_proposal(&gi, tree, vec![], Default::default(), Default::default(), None) {
+                    Ok(m) => {
+                        // the key package inside the proposal, as a key package message (for by-value adds of the same package)
+                        let mut probe = self.w.parties[&from].group.as_ref().unwrap().clone();
+                        let kp_msg = match probe.process_incoming_message(m.clone()) {
+                            Ok(ReceivedMessage::Proposal(d)) => match d.proposal {
+                                mls_rs::group::proposal::Proposal::Add(a) => {
+                                    use mls_rs_codec::MlsEncode;
+                                    let mut b = vec![0u8, 1, 0, 5];
+                                    b.extend(a.key_package().mls_encode_to_vec().unwrap_or_default());
+                                    MlsMessage::from_bytes(&b).ok()
+                                }
+                                _ => None,
+                            },
+                            _ => None,
+                        };
+                        let kp_msg = match kp_msg { Some(k) => k, None => { viol!(self, ["C10"], "newmember-proposal", "{p}: the new-member proposal is not an Add that the members of its epoch can read"); return ("err:unreadable".into(), false); } };
+                        let store_id = match &self.w.parties[&p].kp.inner {
+                            KpBackend::Mem(mm) => mm.key_packages().into_iter().map(|x| x.0).find(|i| !ids_before.contains(i)).unwrap_or_default(),
+                            _ => kp_msg.key_package_reference(&probe_cs).ok().flatten().map(|r| r.to_vec()).unwrap_or_default(),
+                        };
+                        let idx = self.w.kps.len() + 1;
+                        if let Some(kp) = kp_msg.as_key_package() {
+                            let init = kp.hpke_init_key.as_ref().to_vec();
+                            if let Err(e) = self.w.keys.bind(&format!("kpI{idx}"), &init) { viol!(self, ["C09"], "kp-init-key", "{e}"); }
+                        }
+                        let pref = {
+                            // the proposal's reference, as the probe cached it
+                            probe.get_cached_proposals().iter().map(|c| c.proposal_ref().as_slice().to_vec()).find(|r| !self.w.prop_refs.contains(r)).unwrap_or_default()
+                        };
+                        self.w.kps.push(KpEntry { owner: p.clone(), msg: kp_msg, store_id });
+                        self.w.props.push(m);
+                        self.w.prop_refs.push(pref);
+                        "ok".into()
+                    }
+                    Err(e) => classify(&e),
+                }
+            }
             "SuccCreate" => {
                 let kind = s(&args, "kind").to_string();
                 let kp_msgs: Vec<MlsMessage> = args.get("kps").and_then(|k| k.as_array()).map(|a| a.iter().map(|i| self.w.kps[i.as_u64().unwrap() as usize - 1].msg.clone()).collect()).unwrap_or_default();
@@ -949,8 +1000,9 @@ impl Replayer {
                 let tree = if with_tree { None } else { Some(g.export_tree().into_owned()) };
                 let backend = self.w.opts.backends[0];
                 let jit = self.jitter;
+                let signer = self.w.ext_signer.clone();
                 catch_unwind(AssertUnwindSafe(|| {
-                    let mut o = crate::observer::Observer::new(backend, jit);
+                    let mut o = crate::observer::Observer::new(backend, jit, signer);
                     let r = o.join(gi, tree);
                     (o, r)
                 }))
@@ -972,6 +1024,25 @@ impl Replayer {
                 };
                 let o = self.observer.as_mut().expect("observer exists");
                 catch_unwind(AssertUnwindSafe(|| o.process(m))).map(|r| r.0).map_err(|_| "process_incoming_message".to_string())
+            }
+            "ObsPropose" => {
+                let kind = s(args, "kind").to_string();
+                let arg = u(args, "arg");
+                let kp = if kind == "add" { Some(self.w.kps[arg as usize - 1].msg.clone()) } else { None };
+                let o = self.observer.as_mut().expect("observer exists");
+                let g = o.group.as_mut().expect("observer group");
+                let before: Vec<Vec<u8>> = g.get_cached_proposals().iter().map(|c| c.proposal_ref().as_slice().to_vec()).collect();
+                let r = catch_unwind(AssertUnwindSafe(|| match kp { Some(k) => g.propose_add(k, vec![]), None => g.propose_remove(arg as u32, vec![]) }));
+                match r {
+                    Ok(Ok(m)) => {
+                        let new_ref = g.get_cached_proposals().iter().map(|c| c.proposal_ref().as_slice().to_vec()).find(|r| !before.contains(r)).unwrap_or_default();
+                        self.w.props.push(m);
+                        self.w.prop_refs.push(new_ref);
+                        Ok("ok".into())
+                    }
+                    Ok(Err(e)) => Ok(classify(&e)),
+                    Err(_) => Err("propose".to_string()),
+                }
             }
             "ObsSnapshotRestore" => {
                 let o = self.observer.as_mut().expect("observer exists");
@@ -1406,6 +1477,10 @@ impl Replayer {
     }
 }
 
+thread_local! {
+    /// the ExternalSenders extension every group context of the running behaviour carries (if it uses an external sender)
+    pub static EXT_SENDERS: std::cell::RefCell<Option<mls_rs::extension::built_in::ExternalSendersExt>> = std::cell::RefCell::new(None);
+}
 pub const CUSTOM_PROPOSAL: u16 = 0xF0F1;
 pub const GCE_EXT: mls_rs::extension::ExtensionType = mls_rs::extension::ExtensionType::new(0xF0F0);
 
@@ -1417,6 +1492,7 @@ pub fn custom_proposal(ver: u64) -> mls_rs::group::proposal::CustomProposal {
 pub fn gce_list(ver: u64) -> mls_rs::ExtensionList {
     let mut l = mls_rs::ExtensionList::new();
     l.set(mls_rs::Extension::new(GCE_EXT, (ver as u16).to_be_bytes().to_vec()));
+    EXT_SENDERS.with(|e| { if let Some(x) = e.borrow().as_ref() { l.set_from(x.clone()).expect("external senders"); } });
     // ver = version + 1000 * code: code bit 0 / 1 = the group requires extension type X / Y
     let code = ver / 1000;
     if code > 0 {
@@ -1441,6 +1517,7 @@ pub fn run_behaviour(b: &Value, opts: Opts, deep: bool, faults: bool, tamper: (u
     let mut opts = opts;
     opts.path_required = cfg.get("pathReq").and_then(|x| x.as_bool()).unwrap_or(false);
     opts.encrypt_controls = cfg.get("enc").and_then(|x| x.as_bool()).unwrap_or(false);
+    opts.ext_sender = cfg.get("features").and_then(|f| f.as_array()).map(|f| f.iter().any(|x| x == "extsender")).unwrap_or(false);
     let list = |k: &str| cfg.get(k).and_then(|x| x.as_array()).map(|a| a.iter().filter_map(|n| n.as_str().map(|s| s.to_string())).collect::<Vec<_>>());
     // capability lists only matter to behaviours of the "caps" feature (a GCE code > 0 occurs); otherwise everybody supports X and Y
     let uses_caps = b.get("steps").and_then(|s| s.as_array()).map(|a| a.iter().any(|st| {
